@@ -50,7 +50,7 @@ def gen_doc(rnd, xml, budget=14):
             emit('=')
             if k < .5: v = '"' + rnd.choice(['v', 'a b', 'x>y', "it's", '', '</p>', '<b>', 'a/b', 'btn btn-x\n\tis-on', 'a\r\n b  c']) + '"'
             elif k < .7: v = "'" + rnd.choice(['v', 'a b', 'x>y', 'say "hi"', '']) + "'"
-            elif k < .85: v = rnd.choice(['v', 'a.b', '1', 'x:y', 'foo-bar'])
+            elif k < .85: v = rnd.choice(['v', 'a.b', '1', 'x:y', 'foo-bar', 'page?id=7', 'QUJD==', 'a=b'])
             else: v = '{' + rnd.choice(['e', 'a > b', '{x}', 'f("y")']) + '}'
             vs = pos[0]; emit(v); ve = pos[0]
             rec.attrs.append((name, v, ns, ne, vs, ve))
